@@ -51,3 +51,5 @@ LEVEL = {
             'selection checker, proved sound: c13_sel_ok_sound); the load-share clause is a test, not a theorem.',
     'technique': 'Coq proof (permutation invariance, argmin, add/remove disruption, for every hash function) + executable xxh64 model checked against the implementation',
 }
+
+CFG['rule'] = CFG['rule'] + ' ' + 'The owner (topK = 1) is judged for every key, on the listed and on the reversed server list, plus an owner stream of 40 (thorough: 400) keys on each of five server sets of 2..6 servers.'
